@@ -649,10 +649,18 @@ def run_check(modname, argv=None):
     results = evaluate(modname, cases, jobs, case_timeout)
 
     harness_errors = [(i, r) for (i, r, o, nt, l) in results if isinstance(r, dict) and "__harness_error__" in r]
+    crashed = {}
     if harness_errors:
         i, r = harness_errors[0]
-        print(f"HARNESS-ERROR property={pid} case={jdump(cases[i])[:400]} error={r['__harness_error__']}\n{r.get('__tb__','')}")
-        return 2
+        if not changed:
+            # unchanged anchored source: a crash of run_impl/oracle is a defect of the harness, never a verdict
+            print(f"HARNESS-ERROR property={pid} case={jdump(cases[i])[:400]} error={r['__harness_error__']}\n{r.get('__tb__','')}")
+            return 2
+        # the anchored source differs from what the harness was validated against and the harness cannot even
+        # evaluate these cases on it: the correspondence no longer checks (reported below, after the search for a
+        # failing input, as a correspondence break)
+        crashed = {i: r for i, r in harness_errors}
+        notes.append(f"{len(crashed)} cases could not be evaluated on the changed implementation, e.g. {r['__harness_error__'][:200]}")
 
     # ---- 3. correspondence with the model ------------------------------------------------------
     disagreements = []
@@ -674,12 +682,15 @@ def run_check(modname, argv=None):
         if replies is not None:
             n_model = len(replies)
             for (idx, res, orc, nt, labels), (a, b) in zip(results, spans):
-                if a == b:
+                if a == b or idx in crashed:
                     continue
                 msg = mod.compare(cases[idx], res, replies[a:b])
                 if msg:
                     disagreements.append((idx, msg, replies[a:b]))
 
+    for idx, r in list(crashed.items())[:5]:
+        disagreements.append((idx, "the harness cannot evaluate this case on the changed implementation: "
+                              + r["__harness_error__"][:300], []))
     # ---- 4. oracle failures on the implementation -------------------------------------------------
     known = load_known()
     failing = [(idx, res, orc) for (idx, res, orc, nt, labels) in results if orc]
